@@ -148,10 +148,10 @@ func VH_C10_weak() {
 // vCallHook upgrades a weak reference to itself while a call is in progress
 type vCallHook struct {
 	vHook
-	w        *WeakClient
-	inCall   bool
-	upgraded *Client
-	upOK     bool
+	w          *WeakClient
+	inCall     bool
+	upgraded   *Client
+	upOK       bool
 	duringCall int
 }
 
@@ -275,4 +275,129 @@ func VH_C10_fulfill_during_call() {
 	c.Release()
 	vAssert(th.shutdowns == 1 && ph.shutdowns == 1, "C10.during.shutdown-exactly-once")
 	vAssert(vLocksHeld() == 0, "C10.during.no-lock-held")
+}
+
+// A promise fulfilled with a client that is itself a still unresolved promise: the outer handle
+// follows the chain - not null, calls reach the inner promise and, once that resolves, the final
+// capability; references transfer down the chain, so the final capability stays alive until the
+// outer handle is released too and is shut down exactly once.
+func VH_C10_promise_chain() {
+	ph1, ph2, th := &vHook{}, &vHook{}, &vHook{}
+	c1, p1 := NewPromisedClient(ph1)
+	c2, p2 := NewPromisedClient(ph2)
+	extra := vConc(int(vNondetU8()), 2) == 1
+	var c1b *Client
+	if extra {
+		c1b = c1.AddRef()
+	}
+	p1.Fulfill(c2) // c2 is not resolved yet
+	vReach("outer-fulfilled")
+	vAssert(vLocksHeld() == 0, "C10.chain.fulfill.no-lock-held")
+	vAssert(c1.IsValid() && c1.State().IsPromise, "C10.chain.outer-handle-follows-to-the-inner-promise")
+	c1.SendCall(context.Background(), Send{})
+	vAssert(ph2.sends == 1 && ph1.sends == 0, "C10.chain.calls-reach-the-inner-promise")
+	target := NewClient(th)
+	p2.Fulfill(target)
+	vReach("inner-fulfilled")
+	c1.SendCall(context.Background(), Send{})
+	vAssert(th.sends == 1, "C10.chain.calls-reach-the-final-capability")
+	vAssert(!c1.State().IsPromise && c1.IsSame(target), "C10.chain.outer-handle-resolved-to-the-final-capability")
+	target.Release()
+	c2.Release()
+	vAssert(th.shutdowns == 0, "C10.chain.transferred-references-keep-the-capability-alive")
+	if extra {
+		c1b.Release()
+		vAssert(th.shutdowns == 0, "C10.chain.no-shutdown-while-a-reference-remains")
+	}
+	c1.Release()
+	vReach("released")
+	vAssert(th.shutdowns == 1 && ph1.shutdowns == 1 && ph2.shutdowns == 1, "C10.chain.every-hook-shut-down-exactly-once")
+	vAssert(vLocksHeld() == 0, "C10.chain.no-lock-held")
+}
+
+type vGateRecvHook struct {
+	vHook
+	gate       chan struct{}
+	inRecv     bool
+	shutInRecv int
+}
+
+func (h *vGateRecvHook) Recv(ctx context.Context, r Recv) PipelineCaller {
+	h.inRecv = true
+	<-h.gate
+	h.inRecv = false
+	h.recvs++
+	return nil
+}
+
+func (h *vGateRecvHook) Shutdown() {
+	if h.inRecv {
+		h.shutInRecv++
+	}
+	h.shutdowns++
+}
+
+// A RECEIVED call (RecvCall) holds the capability like a sent one: releasing the last reference
+// while the hook's Recv is still running waits for it - Shutdown never runs under a call in progress.
+func VH_C10_release_during_recvcall() {
+	h := &vGateRecvHook{gate: make(chan struct{})}
+	c := NewClient(h)
+	callDone, released := false, false
+	go func() {
+		c.RecvCall(context.Background(), Recv{Returner: vReturner{}, ReleaseArgs: func() {}})
+		callDone = true
+	}()
+	vSettle()
+	vReach("call-inside-hook")
+	vAssert(h.inRecv && !callDone, "C10.recv.call-is-inside-the-hook")
+	go func() {
+		c.Release()
+		released = true
+	}()
+	vSettle()
+	vAssert(h.shutdowns == 0, "C10.recv.no-shutdown-while-a-call-is-in-progress")
+	close(h.gate)
+	vSettle()
+	vReach("done")
+	vAssert(callDone && released, "C10.recv.call-and-release-complete")
+	vAssert(h.shutdowns == 1 && h.shutInRecv == 0, "C10.recv.shutdown-exactly-once-after-the-call")
+	vAssert(vLocksHeld() == 0, "C10.recv.no-lock-held")
+}
+
+// Observers (String, State, IsValid, IsSame, WeakRef) on resolved, unresolved and released clients
+// leave every lock free: the next operation does not block.
+func VH_C10_observers_leave_no_lock() {
+	ph := &vHook{}
+	c, cp := NewPromisedClient(ph)
+	plain := NewClient(&vHook{})
+	stage := vConc(int(vNondetU8()), 3)
+	switch stage {
+	case 1:
+		cp.Fulfill(plain)
+	case 2:
+		cp.Fulfill(nil)
+	}
+	vNoBlock(true)
+	_ = c.String()
+	vAssert(vLocksHeld() == 0, "C10.observe.string.no-lock-held")
+	_ = c.State()
+	_ = c.IsValid()
+	_ = c.IsSame(plain)
+	w := c.WeakRef()
+	vAssert(vLocksHeld() == 0, "C10.observe.no-lock-held")
+	c2 := c.AddRef()
+	vReach("after-observers")
+	vAssert(vLocksHeld() == 0, "C10.observe.addref-after-observers")
+	if w != nil {
+		if s, ok := w.AddRef(); ok {
+			s.Release()
+		}
+	}
+	c2.Release()
+	c.Release()
+	_ = (*Client)(nil).String()
+	_ = plain.String()
+	plain.Release()
+	_ = plain.String()
+	vAssert(vLocksHeld() == 0, "C10.observe.after-release.no-lock-held")
 }
